@@ -49,6 +49,443 @@ void h_agg(void) {
     OBLIGATION(!meW && !meA, "C13.agg: no role is left behind");
     VACUITY_END();
 }
+#elif defined(HEAPLC)
+/* heapify (sift-up of every element of [mark, size)) and reheap (sift-down from the root): heap order and permutation for EVERY size.
+   Quantifier-free encoding.  A universally quantified fact "for all positions g: F(g)" is proved for one arbitrary position g_k (a global that
+   is never assigned).  The sift loops need F at a second position that depends on the state (the parent of the hole / the child that moves up):
+   that instance of the SAME formula F is assumed at the head of the loop body (hooks COMPARE_heapify_1 / COMPARE_reheap_2, which the extraction
+   checks to precede every write of the body): it is an instance of the induction hypothesis "F holds for all g at the loop head", which is what
+   the proof for arbitrary g_k establishes.  Permutation: two arbitrary elements are followed by ghost positions (g_p1, g_p2) updated in the
+   element-move hooks: each keeps a place, distinct elements keep distinct places => the final array is a permutation (pigeonhole on paper). */
+#include "verif.h"
+#include <stdlib.h>
+typedef int value_type;
+#define VEC_SIZE(s) ((s)->data_n)
+#define VEC_BACK(s) ((s)->data[(s)->data_n - 1])
+#define VEC_POP_BACK(s) ((s)->data_n--)
+#define LESS(a, b) ((a) < (b))             /* std::less<int> */
+#define COMPARE(a, b) LESS(a, b)
+#define PARENT(i) (((i) - 1) >> 1)
+#define D (self->data)
+#define NN (self->data_n)
+#define MK (self->mark)
+size_t g_k, g_p1, g_p2, g_p0; value_type g_v1;
+#ifdef PART_ORDER
+#define ORD(x) (x)
+#else
+#define ORD(x) 1
+#endif
+#if defined(PART_KEPT) || defined(PART_DIST)   /* KEPT: one element followed with its value (it keeps a place); DIST: two elements followed, positions only (the places stay distinct) */
+#define PART_PERM
+#define PRM(x) (x)
+#else
+#define PRM(x) 1
+#endif
+/* the heap-order fact at position g over the heap region [0, m) */
+#define HEAP_AT(a, g, m) (((g) >= 1 && (g) < (m)) ? !LESS((a)[PARENT(g)], (a)[g]) : 1)
+/* ---- heapify: outer loop = elements [0, mark) form a heap; inner loop = sift-up with the hole at cur_pos (its cell keeps a stale copy) */
+#define SIFTUP_AT(g) (((g) >= 1 && (g) <= MK && (g) != cur_pos) ? !LESS(D[PARENT(g)], D[g]) : 1)       /* every node but the hole respects its parent */
+#define SIFTUP_HOLE (cur_pos != MK ? (LESS(D[cur_pos], to_place) && !LESS(D[PARENT(cur_pos)], D[cur_pos])) : 1)   /* the stale value in the hole is below to_place and respects its parent */
+#define UPVAL(j) ((j) == cur_pos ? to_place : D[j])                                                   /* the array with to_place sitting in the hole */
+#ifdef PART_DIST
+#define TRACKED(val) (g_p1 < NN && g_p2 < NN && g_p1 != g_p2)
+#else
+#define TRACKED(val) (g_p1 < NN && val(g_p1) == g_v1)
+#endif
+#define PLAIN(j) D[j]
+#define LOOP_heapify_1 __CPROVER_assigns(MK, __CPROVER_object_whole(D), g_p1, g_p2) \
+    __CPROVER_loop_invariant(MK <= NN && (MK >= 1 || NN == 0) && ORD(HEAP_AT(D, g_k, MK)) && PRM(TRACKED(PLAIN))) __CPROVER_decreases(NN - MK)
+#define LOOP_heapify_2 __CPROVER_assigns(cur_pos, __CPROVER_object_whole(D), g_p1, g_p2) \
+    __CPROVER_loop_invariant(cur_pos >= 1 && cur_pos <= MK && MK < NN && ORD(SIFTUP_AT(g_k) && SIFTUP_HOLE) && PRM(TRACKED(UPVAL))) __CPROVER_decreases(cur_pos)
+#define COMPARE_heapify_1(a, b) ({ __CPROVER_assume(ORD(SIFTUP_AT(parent))); /* lemma instance: the hole's parent respects ITS parent */ LESS(a, b); })
+#define SWAP_TRACK(p, i, j) ({ if ((p) == (j)) (p) = (i); else if ((p) == (i)) (p) = (j); })
+#define DATA_MOVE_heapify_1(s, i, j) ({ size_t i_ = (i), j_ = (j); (s)->data[i_] = (s)->data[j_]; SWAP_TRACK(g_p1, i_, j_); SWAP_TRACK(g_p2, i_, j_); })   /* parent moves down, to_place (virtually) up */
+/* ---- reheap: the hole starts at the (already extracted) root; data.back() is sifted down from there */
+#define SIFTDN_AT(g) (((g) >= 1 && (g) < MK && (cur_pos != 0 || PARENT(g) != 0)) ? !LESS(D[PARENT(g)], D[g]) : 1)     /* heap order everywhere, except against the dead root while the hole is there */
+#define SIFTDN_HOLE (cur_pos != 0 ? !LESS(D[PARENT(cur_pos)], D[NN - 1]) : 1)                                          /* what was moved above the hole is not below the element being placed */
+#ifdef PART_DIST
+#define LIVE_NOT_HOLE (g_p1 != cur_pos && g_p2 != cur_pos)
+#else
+#define LIVE_NOT_HOLE (g_p1 != cur_pos && (g_p0 < MK ? g_p1 < MK : 1))      /* an element of the heap region stays in the heap region */
+#endif
+#define LOOP_reheap_1 __CPROVER_assigns(cur_pos, child, __CPROVER_object_whole(D), g_p1, g_p2) \
+    __CPROVER_loop_invariant(child == 2 * cur_pos + 1 && (cur_pos == 0 || cur_pos < MK) && MK <= NN && NN >= 1 && ORD(SIFTDN_AT(g_k) && SIFTDN_HOLE) && PRM(TRACKED(PLAIN) && LIVE_NOT_HOLE)) __CPROVER_decreases(NN - cur_pos)
+#define COMPARE_reheap_2(a, b) ({ __CPROVER_assume(ORD(SIFTDN_AT(target))); /* lemma instance: the child that moves up respects the hole's old value */ LESS(a, b); })
+#define MOVE_TRACK(p, i, j) ({ if ((p) == (j)) (p) = (i); })
+#define DATA_MOVE_reheap_1(s, i, j) ({ size_t i_ = (i), j_ = (j); (s)->data[i_] = (s)->data[j_]; MOVE_TRACK(g_p1, i_, j_); MOVE_TRACK(g_p2, i_, j_); })
+#define DATA_MOVE_BACK_reheap_1(s, i) ({ size_t i_ = (i), j_ = (s)->data_n - 1; (s)->data[i_] = VEC_BACK(s); MOVE_TRACK(g_p1, i_, j_); MOVE_TRACK(g_p2, i_, j_); })
+#include "cpq_heap.inc"
+#undef D
+#undef NN
+#undef MK
+size_t IN_n, IN_mark, IN_k;
+static void mk_any(struct cpq *q, size_t lo) {
+    q->data_n = IN_n = nondet_size_t(); q->mark = IN_mark = nondet_size_t(); g_k = IN_k = nondet_size_t();
+    __CPROVER_assume(q->data_n >= lo && q->data_n <= ((size_t)1 << 16) && q->mark <= q->data_n);
+#ifdef VACUITY
+    __CPROVER_assume(q->data_n <= 64);     /* the twin only has to exhibit ONE execution that reaches the harness end: a small one is found faster */
+#endif
+    q->data = malloc((q->data_n ? q->data_n : 1) * sizeof(value_type)); __CPROVER_assume(q->data != NULL);
+    q->my_size = q->data_n;
+}
+static void track(struct cpq *q, size_t lo) {      /* one arbitrary live element and its value (KEPT) / two arbitrary different live elements (DIST) */
+    g_p1 = nondet_size_t(); g_p2 = nondet_size_t(); __CPROVER_assume(g_p1 >= lo && g_p1 < q->data_n); g_v1 = q->data[g_p1]; g_p0 = g_p1;
+#ifdef PART_DIST
+    __CPROVER_assume(g_p2 >= lo && g_p2 < q->data_n && g_p1 != g_p2);
+#endif
+}
+void h_heapify_lc(void) {
+    struct cpq q;
+#if defined(PART_DIST)
+    mk_any(&q, 2); track(&q, 0);
+#elif defined(PART_KEPT)
+    mk_any(&q, 1); track(&q, 0);
+#else
+    mk_any(&q, 0);
+#endif
+    size_t n0 = q.data_n;
+    __CPROVER_assume(HEAP_AT(q.data, g_k, q.mark));                       /* precondition: data[0, mark) is a heap */
+    cpq_heapify(&q);
+    OBLIGATION(q.data_n == n0 && q.mark == n0, "C13.heapify: for every size: mark reaches size, nothing added or dropped (all indexing in bounds)");
+#ifdef PART_ORDER
+    OBLIGATION(HEAP_AT(q.data, g_k, n0), "C13.heapify: for every size and every position k in [1, size): the element at k does not beat the element at its parent - the whole array is a max-heap");
+#endif
+#ifdef PART_KEPT
+    OBLIGATION(g_p1 < n0 && q.data[g_p1] == g_v1, "C13.heapify: for every size: every element still has a place in the array (none lost)");
+#endif
+#ifdef PART_DIST
+    OBLIGATION(g_p1 < n0 && g_p2 < n0 && g_p1 != g_p2, "C13.heapify: for every size: two different elements end in two different places (none duplicated: the array is a permutation of what it was)");
+#endif
+    VACUITY_END();
+}
+void h_reheap_lc(void) {
+    struct cpq q;
+#if defined(PART_DIST)
+    mk_any(&q, 3); track(&q, 1);
+#elif defined(PART_KEPT)
+    mk_any(&q, 2); track(&q, 1);                                          /* live elements are those at [1, size): the root has been handed to the popper */
+#else
+    mk_any(&q, 1);
+#endif
+    size_t n0 = q.data_n, m0 = q.mark;
+    __CPROVER_assume((g_k >= 1 && g_k < m0 && PARENT(g_k) != 0) ? !LESS(q.data[PARENT(g_k)], q.data[g_k]) : 1);   /* precondition: data[0, mark) is a heap except for the root cell */
+    cpq_reheap(&q);
+    OBLIGATION(q.data_n == n0 - 1 && q.mark == (m0 < n0 ? m0 : n0 - 1), "C13.reheap: for every size: one element leaves, mark stays <= size (all indexing in bounds: CBMC bounds checks)");
+#ifdef PART_ORDER
+    OBLIGATION(HEAP_AT(q.data, g_k, q.mark), "C13.reheap: for every size and every position k in [1, mark): the element at k does not beat the element at its parent - data[0, mark) is a max-heap again");
+#endif
+#ifdef PART_KEPT
+    OBLIGATION(g_p1 < n0 - 1 && q.data[g_p1] == g_v1, "C13.reheap: for every size: every element other than the extracted root still has a place in the shortened array (none lost)");
+    OBLIGATION(g_p0 < m0 ? g_p1 < q.mark : 1, "C13.reheap: for every size: an element of the heap region stays in the heap region");
+#endif
+#ifdef PART_DIST
+    OBLIGATION(g_p1 < n0 - 1 && g_p2 < n0 - 1 && g_p1 != g_p2, "C13.reheap: for every size: two different elements end in two different places (none duplicated)");
+#endif
+    VACUITY_END();
+}
+#elif defined(HANDLELC)
+/* handle_operations for a batch of EVERY length over a queue of every size (loop contracts on both passes).
+   The operation records are not laid out in memory: a record is the token OPPTR(index) and every access to it is a hook.  What is followed:
+     g_j  one arbitrary operation of the batch: its status word (stored exactly once, never touched afterwards);
+     g_c  one arbitrary operation: its `next` field (real writes / reads of the postponed-pop list);
+     E    one arbitrary element (queued before the batch, or the one pushed by g_j): where it is, how often it was handed to a pop;
+     g_k  one arbitrary array position: the heap order.
+   The proof is split by conjunct (not by execution) into two jobs over the same extracted text:
+     PART_L  records, links, status words, termination.  The array contents are unconstrained (every outcome of every comparison is explored).
+     PART_E  elements, heap order, sizes.  The lists are over-approximated (op_next2 returns ANY record of the batch or NULL), no termination claim.
+   POST[] is a prophecy ("operation r is postponed to the second pass"): an immutable arbitrary array, resolved when r is handled in the first pass.
+   The `next` field of a record other than g_c is read as an arbitrary value constrained by the instance, at that record, of the universally
+   quantified loop invariant that is proved for g_c (LINKFACTS).  heapify / reheap are replaced by the contracts proved by jobs heap.* (same
+   macros), plus "the root of a heap is not beaten by any element of it" (job lemma.rootmax). */
+#include "verif.h"
+#include <stdlib.h>
+typedef int value_type;
+enum { INVALID_OP, PUSH_OP, POP_OP, PUSH_RVALUE_OP };
+enum { WAIT = 0, SUCCEEDED, FAILED };
+typedef struct cpq_operation cpq_operation;                 /* opaque: never dereferenced */
+#define LESS(a, b) ((a) < (b))
+#define COMPARE(a, b) LESS(a, b)
+#define PARENT(i) (((i) - 1) >> 1)
+#define HEAP_AT(a, g, m) (((g) >= 1 && (g) < (m)) ? !LESS((a)[PARENT(g)], (a)[g]) : 1)
+#define HEAP_BUT_ROOT_AT(a, g, m) (((g) >= 1 && (g) < (m) && PARENT(g) != 0) ? !LESS((a)[PARENT(g)], (a)[g]) : 1)
+#define NMAXQ ((size_t)1 << 12)
+#define NONE (~(size_t)0)
+#define OPPTR(i) ((cpq_operation *)((((uintptr_t)(i)) + 1) << 4))
+#define OPIDX(p) ((size_t)((((uintptr_t)(p)) >> 4) - 1))
+#define LINK(i) ((i) == NONE ? (cpq_operation *)NULL : OPPTR(i))
+#define ORIG(r) ((r) + 1 < N ? OPPTR((r) + 1) : (cpq_operation *)NULL)
+#define TOKEN_OK(p) ((p) == NULL || (OPIDX(p) < N && (p) == OPPTR(OPIDX(p))))
+#define POPREC(p) ((p) == NULL || g_type[OPIDX(p)] == POP_OP)
+#ifdef PART_L
+#define PL(x) (x)
+#define PE(x) 1
+#else
+#define PL(x) 1
+#define PE(x) (x)
+#endif
+enum { E_NOTYET, E_IN, E_OUT };
+static size_t N, n0, CAPQ; static unsigned char *g_type; static bool *POST;
+static size_t g_k, g_j, g_c; static int st_j; static unsigned nset_j; static cpq_operation *next_c;
+static int e_state; static bool e_init; static size_t g_p; static value_type g_v; static unsigned e_taken;
+static size_t g_npush, g_ntake, g_pending; static bool g_phase2; static value_type g_cell;
+#define IS_PUSH(r) (g_type[r] == PUSH_OP || g_type[r] == PUSH_RVALUE_OP)
+/* what the link nx stored in a postponed record r satisfies: it is NULL or a postponed record below r, and no postponed g_j lies strictly between */
+#define LINKFACTS(r, nx) (TOKEN_OK(nx) && ((nx) == NULL ? 1 : (OPIDX(nx) < (r) && POST[OPIDX(nx)])) && ((POST[g_j] && g_j < (r)) ? ((nx) != NULL && g_j <= OPIDX(nx)) : 1))
+static void touch(size_t r) {
+    __CPROVER_assert(r < N, "C13.batch: only records of the batch are touched");
+#ifdef PART_L
+    if (r == g_j) __CPROVER_assert(st_j == WAIT, "C13.batch: a record is not touched after its status was published (its owner may already have destroyed it)");
+#endif
+}
+static int op_type(cpq_operation *p) { size_t r = OPIDX(p); touch(r); int t = g_type[r]; __CPROVER_assume(t == PUSH_OP || t == POP_OP || t == PUSH_RVALUE_OP); /* precondition: push()/try_pop() build no other type */ return t; }
+static value_type *op_elem(cpq_operation *p) { touch(OPIDX(p)); g_cell = nondet_int(); return &g_cell; }       /* the value the pusher passed: arbitrary */
+static cpq_operation *op_next1(cpq_operation *p) {          /* first pass: the record at the cursor still carries the link the aggregator built */
+    size_t r = OPIDX(p); touch(r);
+#ifdef PART_L
+    return r == g_c ? next_c : ORIG(r);                       /* instance r of "a record not yet handled has its original link" (read at the loop head: checked by the extraction) */
+#else
+    return ORIG(r);
+#endif
+}
+static cpq_operation *op_next2(cpq_operation *p) {          /* second pass: links written by the first pass */
+    size_t r = OPIDX(p); touch(r); g_phase2 = true;
+#ifdef PART_L
+    __CPROVER_assume(POST[r] ? g_type[r] == POP_OP : 1);      /* instance r of "only pops are postponed" (first-pass invariant at index g_c; the arrays are immutable) */
+    if (r == g_c) return next_c;
+    cpq_operation *nx = OPPTR(nondet_size_t()); if (nondet_bool()) nx = NULL;
+    __CPROVER_assume(POST[r] ? LINKFACTS(r, nx) : 1);         /* instance r of the invariant proved for g_c (no link is written in the second pass; r is postponed by the loop invariant) */
+    return nx;
+#else
+    cpq_operation *any = OPPTR(nondet_size_t()); if (nondet_bool()) any = NULL; __CPROVER_assume(TOKEN_OK(any) && POPREC(any)); return any;   /* over-approximation: any pop record of the batch, or the end of the list (the list holds only pops: part L, LINKFACTS + 'only pops are postponed') */
+#endif
+}
+static void op_set_next(cpq_operation *p, cpq_operation *v) {
+    size_t r = OPIDX(p); touch(r);
+#ifdef PART_L
+    __CPROVER_assume(POST[r]);                                /* prophecy resolved: r is postponed */
+    if (r == g_c) next_c = v;
+#endif
+}
+static void set_status(size_t n_now, cpq_operation *p, int st) {
+    size_t r = OPIDX(p); touch(r);
+#ifdef PART_L
+    if (!g_phase2) __CPROVER_assume(!POST[r]);                /* prophecy resolved: r is answered in the first pass */
+    if (r == g_j) { OBLIGATION(st_j == WAIT, "C13.batch: an operation is answered only once"); st_j = st; nset_j++; }
+#else
+    if (st == FAILED) OBLIGATION(n_now == 0 && g_phase2, "C13.batch: a pop fails only when the array (which by then holds every push of the batch) is empty at that moment");
+#endif
+}
+#define OP_TYPE(p) op_type(p)
+#define OP_ELEM(p) op_elem(p)
+#define OP_NEXT(x) OP_NEXT_##x(x)
+#define OP_NEXT_op_list(p) op_next1(p)
+#define OP_NEXT_pop_list(p) op_next2(p)
+#define OP_SET_NEXT(p, v) op_set_next((p), (v))
+#define SET_STATUS(p, st) set_status(self->data_n, (p), (st))
+#define VEC_SIZE(s) ((s)->data_n)
+#define VEC_BACK(s) ((s)->data[(s)->data_n - 1])
+#ifdef PART_L
+#define VEC_POP_BACK(s) ({ (s)->data_n--; })
+#define VEC_PUSH_BACK(s, v) ({ value_type v_ = (v); __CPROVER_assert((s)->data_n < CAPQ, "model: vector capacity"); (s)->data[(s)->data_n] = v_; (s)->data_n++; g_npush++; })
+#define POP_TAKE(op, s, pos, val) ({ size_t pos_ = (pos); value_type val_ = (val); touch(OPIDX(op)); g_ntake++; })
+#else
+#define VEC_POP_BACK(s) ({ OBLIGATION(g_pending == (s)->data_n - 1, "C13.batch: the element dropped from the array is the one just handed to a pop (nothing else is lost)"); g_pending = NONE; (s)->data_n--; })
+#define VEC_PUSH_BACK(s, v) ({ value_type v_ = (v); __CPROVER_assert((s)->data_n < CAPQ, "model: vector capacity"); (s)->data[(s)->data_n] = v_; \
+    if (OPIDX(tmp) == g_j && !e_init) { OBLIGATION(e_state == E_NOTYET, "C13.batch: an element is pushed once"); e_state = E_IN; g_p = (s)->data_n; g_v = v_; } (s)->data_n++; g_npush++; })
+#define POP_TAKE(op, s, pos, val) ({ size_t pos_ = (pos); value_type val_ = (val); touch(OPIDX(op)); \
+    OBLIGATION(g_pending == NONE, "C13.batch: model: one take at a time"); \
+    OBLIGATION(!(e_init && e_state == E_IN && g_p != pos_) || !LESS(val_, g_v), "C13.batch: a pop never returns less than an element that was queued before the batch and is still queued"); \
+    if (e_state == E_IN && g_p == pos_) { e_state = E_OUT; e_taken++; } g_ntake++; g_pending = pos_; })
+#endif
+#define POP_TAKE_BACK(op, s) POP_TAKE(op, s, (s)->data_n - 1, VEC_BACK(s))
+#define POP_TAKE_AT(op, s, i) POP_TAKE(op, s, (i), (s)->data[i])
+/* ---- invariants -------------------------------------------------------------------------------------------------------------------- */
+#define CUR1 (op_list ? OPIDX(op_list) : N)
+#define CUR2 (pop_list ? OPIDX(pop_list) : NONE)
+#define DN (self->data_n)
+#define ELEM_OK ((e_state == E_IN ? (g_p < DN && self->data[g_p] == g_v && e_taken == 0 && (e_init ? (g_p < self->mark && !LESS(self->data[0], g_v)) : 1)) : 1) \
+              && (e_state == E_OUT ? e_taken == 1 : 1) && (e_state == E_NOTYET ? e_taken == 0 : 1) && (e_state == E_IN || e_state == E_OUT || e_state == E_NOTYET))
+#define SIZES_OK (self->my_size == DN && DN + g_ntake == n0 + g_npush && g_ntake <= g_npush + n0 && g_npush <= N && DN <= CAPQ)
+#define LOOP_handle_1 __CPROVER_assigns(op_list, tmp, pop_list, self->data_n, self->my_size, __CPROVER_object_whole(self->data), st_j, nset_j, next_c, e_state, g_p, g_v, e_taken, g_npush, g_ntake, g_pending, g_cell) \
+  __CPROVER_loop_invariant(TOKEN_OK(op_list) && TOKEN_OK(pop_list) && !g_phase2 && self->mark == n0 && n0 <= DN && SIZES_OK && g_npush <= CUR1 && g_ntake <= g_npush \
+    && PL((CUR2 == NONE || (CUR2 < CUR1 && POST[CUR2])) \
+       && (g_j >= CUR1 ? (st_j == WAIT && nset_j == 0) : (POST[g_j] ? (st_j == WAIT && nset_j == 0 && g_type[g_j] == POP_OP && CUR2 != NONE && g_j <= CUR2) : (st_j == SUCCEEDED && nset_j == 1))) \
+       && (g_c >= CUR1 ? next_c == ORIG(g_c) : (POST[g_c] ? (LINKFACTS(g_c, next_c) && g_type[g_c] == POP_OP && CUR2 != NONE && g_c <= CUR2) : 1))) \
+    && PE(POPREC(pop_list) && g_pending == NONE && HEAP_AT(self->data, g_k, self->mark) && ELEM_OK && (e_init ? e_state == E_IN : (e_state == E_NOTYET) == (g_j >= CUR1)) && ((e_state == E_IN && !e_init) ? g_p >= self->mark : 1))) \
+  __CPROVER_decreases(N - CUR1)
+#define UNVISITED2(r) (CUR2 != NONE && (r) <= CUR2)
+#ifdef PART_L
+#define DECREASES_2 __CPROVER_decreases(CUR2 + 1)
+#else
+#define DECREASES_2
+#endif
+#define LOOP_handle_2 __CPROVER_assigns(tmp, pop_list, self->mark, self->data_n, self->my_size, __CPROVER_object_whole(self->data), st_j, nset_j, e_state, g_p, e_taken, g_ntake, g_pending, g_phase2) \
+  __CPROVER_loop_invariant(TOKEN_OK(pop_list) && self->mark <= DN && SIZES_OK \
+    && PL((pop_list ? POST[OPIDX(pop_list)] : 1) \
+       && (POST[g_j] ? (g_type[g_j] == POP_OP && (UNVISITED2(g_j) ? (st_j == WAIT && nset_j == 0) : ((st_j == SUCCEEDED || st_j == FAILED) && nset_j == 1))) : (st_j == SUCCEEDED && nset_j == 1)) \
+       && (POST[g_c] ? (LINKFACTS(g_c, next_c) && g_type[g_c] == POP_OP) : 1)) \
+    && PE(POPREC(pop_list) && g_pending == NONE && HEAP_AT(self->data, g_k, self->mark) && ELEM_OK && e_state != E_NOTYET)) \
+  DECREASES_2
+struct cpq;
+static void cpq_reheap(struct cpq *self);
+static void cpq_heapify(struct cpq *self);
+#include "cpq_handle.inc"
+/* contracts of reheap / heapify as proved by the heap.* jobs (at g_k and for the followed element), extended by lemma.rootmax */
+static void cpq_reheap(struct cpq *self) {
+    OBLIGATION(self->data_n >= 1 && self->mark <= self->data_n, "C13.batch: reheap is called on a non-empty array with mark <= size");
+    size_t m0 = self->mark, nn = self->data_n, p0 = g_p;
+#ifndef PART_L
+    OBLIGATION(g_pending == 0, "C13.batch: the element reheap removes (the root) is the one just handed to a pop (nothing else is lost)");
+    OBLIGATION(HEAP_BUT_ROOT_AT(self->data, g_k, self->mark), "C13.batch: reheap is entered with data[0, mark) in heap order but for the root cell");
+#endif
+    __CPROVER_havoc_object(self->data); self->data_n = nn - 1; self->mark = m0 < nn ? m0 : nn - 1; g_pending = NONE;
+#ifndef PART_L
+    __CPROVER_assume(HEAP_AT(self->data, g_k, self->mark));                                                    /* heap.reheap.order */
+    if (e_state == E_IN) { g_p = nondet_size_t(); __CPROVER_assume(g_p < nn - 1 && self->data[g_p] == g_v && (p0 < m0 ? g_p < self->mark : 1)); }   /* heap.reheap.kept (p0 >= 1: the root was handed out) */
+    __CPROVER_assume((e_state == E_IN && g_p < self->mark) ? !LESS(self->data[0], g_v) : 1);                   /* lemma.rootmax on the new heap */
+#endif
+}
+static void cpq_heapify(struct cpq *self) {
+    OBLIGATION(self->mark <= self->data_n, "C13.batch: heapify is called with mark <= size");
+    size_t nn = self->data_n;
+#ifndef PART_L
+    OBLIGATION(HEAP_AT(self->data, g_k, self->mark), "C13.batch: heapify is entered with data[0, mark) in heap order");
+#endif
+    __CPROVER_havoc_object(self->data); self->mark = nn;
+#ifndef PART_L
+    __CPROVER_assume(HEAP_AT(self->data, g_k, nn));                                                            /* heap.heapify.order */
+    if (e_state == E_IN) { g_p = nondet_size_t(); __CPROVER_assume(g_p < nn && self->data[g_p] == g_v); }       /* heap.heapify.kept */
+    __CPROVER_assume(e_state == E_IN ? !LESS(self->data[0], g_v) : 1);                                         /* lemma.rootmax */
+#endif
+}
+size_t IN_n, IN_nops;
+void h_handle_lc(void) {
+    struct cpq q;
+    n0 = IN_n = nondet_size_t(); N = IN_nops = nondet_size_t(); __CPROVER_assume(n0 <= NMAXQ && N >= 1 && N <= NMAXQ);
+#ifdef VACUITY
+    __CPROVER_assume(n0 <= 8 && N <= 8);      /* the twin only has to exhibit one execution that reaches the end */
+#endif
+    CAPQ = n0 + N;
+    q.data = malloc(CAPQ * sizeof(value_type)); g_type = malloc(N); POST = malloc(N * sizeof(bool));
+    __CPROVER_assume(q.data && g_type && POST);
+    q.data_n = q.mark = q.my_size = n0;                                                                         /* between batches the whole array is a heap (TBB_ASSERT at entry, re-established at exit) */
+    g_k = nondet_size_t(); g_j = nondet_size_t(); g_c = nondet_size_t(); __CPROVER_assume(g_j < N && g_c < N);
+    st_j = WAIT; nset_j = 0; next_c = ORIG(g_c); g_npush = g_ntake = 0; g_pending = NONE; g_phase2 = false; e_taken = 0;
+    e_init = nondet_bool(); g_p = nondet_size_t(); g_v = nondet_int(); e_state = E_NOTYET;
+#ifndef PART_L
+    __CPROVER_assume(HEAP_AT(q.data, g_k, n0));
+    if (e_init) { __CPROVER_assume(g_p < n0 && q.data[g_p] == g_v && !LESS(q.data[0], g_v) /* lemma.rootmax */); e_state = E_IN; }
+    else { __CPROVER_assume(IS_PUSH(g_j)); }
+#endif
+    cpq_handle_operations(&q, OPPTR(0));
+#ifdef PART_L
+    OBLIGATION(nset_j == 1 && (st_j == SUCCEEDED || st_j == FAILED), "C13.batch: every operation of the batch gets a final status, exactly once (batch of any length)");
+    OBLIGATION(!IS_PUSH(g_j) || st_j == SUCCEEDED, "C13.batch: a push succeeds");
+#else
+    OBLIGATION(q.my_size == q.data_n && q.data_n + g_ntake == n0 + g_npush, "C13.batch: size() and the array length change by exactly +1 per push and -1 per successful pop");
+    OBLIGATION(q.mark == q.data_n && HEAP_AT(q.data, g_k, q.data_n), "C13.batch: after the batch the whole array is a max-heap again (every size)");
+    OBLIGATION((e_state == E_IN && g_p < q.data_n && q.data[g_p] == g_v && e_taken == 0) || (e_state == E_OUT && e_taken == 1),
+               "C13.batch: every element - queued before the batch or pushed by it - is either still in the array or was handed to exactly one pop");
+#endif
+    VACUITY_END();
+}
+/* lemma.rootmax: in an array that is in heap order at EVERY position, no element of the heap region beats the root (chain of at most 16 parents for size <= 2^16) */
+void h_lemma_rootmax(void) {
+    size_t n = nondet_size_t(), m = nondet_size_t(), g = nondet_size_t(); __CPROVER_assume(n >= 1 && n <= ((size_t)1 << 16) && m <= n && g < m);
+    value_type *a = malloc(n * sizeof(value_type)); __CPROVER_assume(a != NULL);
+    size_t x = g;
+    for (int s = 0; s < 17; ++s) if (x >= 1) { __CPROVER_assume(HEAP_AT(a, x, m)); /* instance x of the heap order */ x = PARENT(x); }
+    OBLIGATION(x == 0, "C13.lemma: the root is reached after at most 16 parent steps");
+    OBLIGATION(!LESS(a[0], a[g]), "C13.lemma: heap order at every position implies that no element of the heap region beats the root");
+    VACUITY_END();
+}
+#elif defined(WRAP)
+/* push / try_pop wrappers (what record reaches the aggregator, what the caller gets back), size()/empty(), and the whole-container operations that
+   (re)establish the representation invariant mark <= size, data[0, mark) heap, size() == data.size(): clear, assign (bulk load + heapify), copy assignment. */
+#include "verif.h"
+#include <stdlib.h>
+typedef int value_type;
+enum { INVALID_OP, PUSH_OP, POP_OP, PUSH_RVALUE_OP };
+enum { WAIT = 0, SUCCEEDED, FAILED };
+typedef struct cpq_operation { uintptr_t status; struct cpq_operation *next; int type; value_type *elem; } cpq_operation;
+#define LESS(a, b) ((a) < (b))
+#define PARENT(i) (((i) - 1) >> 1)
+#define HEAP_AT(a, g, m) (((g) >= 1 && (g) < (m)) ? !LESS((a)[PARENT(g)], (a)[g]) : 1)
+#define WCAP ((size_t)1 << 12)
+struct cpq;
+static int g_exec, g_throw, g_want_type, g_answer, g_heapify_calls; static value_type *g_want_elem; static size_t g_k, g_loaded; static bool g_copied;
+static void agg_execute(struct cpq *q, cpq_operation *op) {       /* aggregator::execute + the handler: agg.execute and batch.* prove that the record gets exactly one non-zero status */
+    OBLIGATION(op->status == WAIT && op->next == NULL, "C13.api: the record is handed to the aggregator in the WAIT state and unlinked");
+    OBLIGATION(op->type == g_want_type, "C13.api: push(const&) queues a PUSH_OP, push(&&) a PUSH_RVALUE_OP, try_pop a POP_OP record (no other type reaches the handler)");
+    OBLIGATION(op->elem == g_want_elem, "C13.api: the record points at the caller's variable (a push reads the value from it, a pop writes the result to it)");
+    g_exec++; op->status = (uintptr_t)g_answer;
+}
+#define AGG_EXECUTE(s, op) agg_execute((s), (op))
+#define THROW_BAD_ALLOC() (g_throw++)
+#define VEC_SIZE(s) ((s)->data_n)
+#define VEC_CLEAR(s) ((s)->data_n = 0)
+#define VEC_ASSIGN(s, b, e) ({ __CPROVER_havoc_object((s)->data); (s)->data_n = g_loaded; })          /* data.assign(begin, end): g_loaded arbitrary elements, arbitrary values */
+#define VEC_COPY(s, o) ({ (s)->data_n = (o)->data_n; g_copied = true; })                                /* data = other.data: contents not modelled */
+static void cpq_heapify(struct cpq *self);
+#include "cpq_wrap.inc"
+static void cpq_heapify(struct cpq *self) {                         /* contract proved by heap.heapify.* */
+    OBLIGATION(self->mark <= self->data_n && HEAP_AT(self->data, g_k, self->mark), "C13.container: heapify is entered with mark <= size and data[0, mark) in heap order (after a bulk load: mark was reset to 0)");
+    __CPROVER_havoc_object(self->data); self->mark = self->data_n; g_heapify_calls++;
+    __CPROVER_assume(HEAP_AT(self->data, g_k, self->data_n));
+}
+static size_t g_cap;
+static void mkq(struct cpq *q, bool with_array) {      /* a queue between batches; the array itself is only needed where heapify's contract is used */
+    q->data_n = nondet_size_t(); q->mark = nondet_size_t(); q->my_size = nondet_size_t(); g_k = nondet_size_t(); g_cap = nondet_size_t();
+    __CPROVER_assume(g_cap >= 1 && g_cap <= WCAP && q->data_n <= g_cap && q->mark <= q->data_n && q->my_size == q->data_n);
+    q->data = NULL;
+    if (with_array) { q->data = malloc(g_cap * sizeof(value_type)); __CPROVER_assume(q->data != NULL && HEAP_AT(q->data, g_k, q->mark)); }
+    g_exec = g_throw = g_heapify_calls = 0; g_copied = false;
+}
+static void h_push(int which) {
+    struct cpq q; mkq(&q, false); value_type v = nondet_int();
+    g_want_type = which ? PUSH_RVALUE_OP : PUSH_OP; g_want_elem = &v; g_answer = nondet_bool() ? SUCCEEDED : FAILED;
+    if (which) cpq_push_move(&q, &v); else cpq_push_copy(&q, &v);
+    OBLIGATION(g_exec == 1, "C13.api: push hands exactly one record to the aggregator");
+    OBLIGATION(g_throw == (g_answer == FAILED ? 1 : 0), "C13.api: push throws bad_alloc exactly when the handler answered FAILED (the failure reaches the caller of that push only)");
+}
+void h_push_copy(void) { h_push(0); VACUITY_END(); }
+void h_push_move(void) { h_push(1); VACUITY_END(); }
+void h_try_pop(void) {
+    struct cpq q; mkq(&q, false); value_type v = nondet_int();
+    g_want_type = POP_OP; g_want_elem = &v; g_answer = nondet_bool() ? SUCCEEDED : FAILED;
+    bool r = cpq_try_pop(&q, &v);
+    OBLIGATION(g_exec == 1 && g_throw == 0, "C13.api: try_pop hands exactly one record to the aggregator and does not throw");
+    OBLIGATION(r == (g_answer == SUCCEEDED), "C13.api: try_pop returns true exactly when the handler answered SUCCEEDED");
+    VACUITY_END();
+}
+void h_size_empty(void) {
+    struct cpq q; mkq(&q, false);
+    OBLIGATION(cpq_size(&q) == q.data_n, "C13.api: between batches size() is the number of elements in the array");
+    OBLIGATION(cpq_empty(&q) == (q.data_n == 0), "C13.api: empty() is size() == 0");
+    VACUITY_END();
+}
+void h_clear(void) {
+    struct cpq q; mkq(&q, false);
+    cpq_clear(&q);
+    OBLIGATION(q.data_n == 0 && q.mark == 0 && q.my_size == 0, "C13.container: clear() leaves an empty array, mark == 0 and size() == 0");
+    VACUITY_END();
+}
+void h_assign(void) {
+    struct cpq q; mkq(&q, true); g_loaded = nondet_size_t(); __CPROVER_assume(g_loaded <= g_cap);
+    value_type src[1];
+    cpq_assign(&q, src, src);
+    OBLIGATION(g_heapify_calls == 1 && q.data_n == g_loaded && q.mark == q.data_n && q.my_size == q.data_n, "C13.container: assign() loads the elements, heapifies once; afterwards mark == size() == number of elements loaded");
+    OBLIGATION(HEAP_AT(q.data, g_k, q.data_n), "C13.container: after assign() the whole array is a max-heap");
+    VACUITY_END();
+}
+void h_copy_assign(void) {
+    struct cpq q, o; mkq(&o, false); mkq(&q, false); bool self_assign = nondet_bool();
+    size_t n1 = q.data_n, m1 = q.mark, s1 = q.my_size;
+    cpq_copy_assign(&q, self_assign ? &q : &o);
+    if (self_assign) OBLIGATION(q.data_n == n1 && q.mark == m1 && q.my_size == s1 && !g_copied, "C13.container: self-assignment changes nothing");
+    else OBLIGATION(g_copied && q.data_n == o.data_n && q.mark == o.mark && q.my_size == o.my_size, "C13.container: copy assignment takes the array together with its mark and size() (the copy satisfies the representation invariant of the source)");
+    VACUITY_END();
+}
 #else
 /* C13 harnesses (bounded stand-ins: heap order talks about neighbouring indices; no quantifier support in any back end). */
 #include "verif.h"
@@ -108,29 +545,7 @@ void h_heapify_lc(void) {
     OBLIGATION(q.data_n == n0 && q.mark == n0, "C13.heapify: for every size: mark reaches size, nothing added or dropped (all indexing in bounds)");
     VACUITY_END();
 }
-#elif !defined(BATCH)
-void h_reheap(void) {
-    struct cpq q; mk(&q); __CPROVER_assume(q.data_n >= 1 && q.mark >= 1);
-    value_type old[CAP]; for (size_t i = 0; i < CAP; ++i) old[i] = A[i];
-    size_t n0 = q.data_n, m0 = q.mark; value_type root = A[0], probe = nondet_int();
-    cpq_reheap(&q);     /* the root was already handed to the popper; reheap removes it from the array */
-    OBLIGATION(q.data_n == n0 - 1, "C13.reheap: exactly one element leaves");
-    OBLIGATION(q.mark == (m0 < n0 ? m0 : n0 - 1) && q.mark <= q.data_n, "C13.reheap: the heap region keeps its size unless the last leaf was the one moved");
-    OBLIGATION(is_heap(A, q.mark), "C13.reheap: data[0..mark) is a max-heap again (bounded)");
-    OBLIGATION(count(A, q.data_n, probe) + (probe == root ? 1 : 0) == count(old, n0, probe), "C13.reheap: the multiset of elements is the old one minus the extracted root (bounded)");
-    VACUITY_END();
-}
-void h_heapify(void) {
-    struct cpq q; mk(&q);
-    value_type old[CAP]; for (size_t i = 0; i < CAP; ++i) old[i] = A[i];
-    size_t n0 = q.data_n; value_type probe = nondet_int();
-    cpq_heapify(&q);
-    OBLIGATION(q.data_n == n0 && q.mark == n0, "C13.heapify: every element is merged into the heap, none added or dropped");
-    OBLIGATION(is_heap(A, q.data_n), "C13.heapify: the whole array is a max-heap (bounded)");
-    OBLIGATION(count(A, n0, probe) == count(old, n0, probe), "C13.heapify: the multiset of elements is unchanged (bounded)");
-    VACUITY_END();
-}
-#else
+#elif defined(BATCH)
 void h_handle(void) {
     struct cpq q; mk(&q); __CPROVER_assume(q.data_n <= 4 && q.mark == q.data_n);   /* between batches the whole array is a heap */
     value_type old[CAP]; for (size_t i = 0; i < CAP; ++i) old[i] = A[i];
